@@ -5,28 +5,34 @@ package main
 
 import (
 	"flag"
-	"fmt"
 	"io"
 	"os"
-	"strings"
 	"time"
 )
 
 func main() {
 	nout := flag.Int("out", 0, "chunks on stdout")
 	nerr := flag.Int("err", 0, "chunks on stderr")
-	size := flag.Int("size", 16, "chunk size in bytes (at least 12)")
+	size := flag.Int("size", 16, "chunk size in bytes")
 	code := flag.Int("exit", 0, "exit status")
 	stdinLog := flag.String("stdinlog", "", "copy stdin to this file until EOF before exiting")
 	delay := flag.Duration("delay", 0, "sleep before exiting")
 	inter := flag.Bool("interleave", false, "alternate between the descriptors")
 	flag.Parse()
+	// every byte identifies its stream (upper / lower case) and its offset
+	offs := map[string]int{}
 	rec := func(tag string, i int) []byte {
-		h := fmt.Sprintf("%s%08d:", tag, i)
-		if *size > len(h)+1 {
-			h += strings.Repeat("x", *size-len(h)-1)
+		b := make([]byte, *size)
+		base, mul := byte('A'), 7
+		if tag == "E" {
+			base, mul = 'a', 11
 		}
-		return []byte(h + "\n")
+		o := offs[tag]
+		for k := range b {
+			b[k] = base + byte(((o+k)*mul+(o+k)/26)%26)
+		}
+		offs[tag] = o + len(b)
+		return b
 	}
 	if *inter {
 		for i := 0; i < *nout || i < *nerr; i++ {
